@@ -210,6 +210,13 @@ func (g *forGen) forcedEmitting(depth int, counters []string, budget int) (rc.It
 		g.info.LabelledBodyStartsWithBareFor = true
 	}
 	it.Expr = g.countExpr(v)
+	if depth < 3 && budget >= 2 && rapid.IntRange(0, 2).Draw(t, "fdeeper") == 0 {
+		// the emitting block itself starts with another nested block
+		inner, _ := g.forcedEmitting(depth+1, counters, budget-1)
+		it.Body = []rc.Item{inner}
+		g.info.Nested = true
+		return it, 2
+	}
 	it.Body = []rc.Item{g.instr(counters, nil)}
 	if rapid.Bool().Draw(t, "fsecond") {
 		it.Body = append(it.Body, g.instr(counters, nil))
